@@ -289,6 +289,11 @@ def check(model: Model, run: Run) -> None:
 
     # ------------------------------------------------------------------ R7 AND bits as written (text parser)
     run.rule('C16.R7', 'the text parser gives each operator the AND bit its own term carries: between two yielded operators the AND flag is always reassigned (AND after "&", NOP for a new list term)', floor=1)
+    and_flag_rule(model, run)
+
+
+def and_flag_rule(model: Model, run: Run) -> None:
+    """shared by C16.R7 and C18.R5"""
     gc = model.func('exabgp.configuration.flow.parser._generic_condition')
     run.analysed(gc)
     from ..typestate import propagate
